@@ -186,14 +186,21 @@ func ErrClass(err error) string {
 	case strings.Contains(err.Error(), "lock not acquired after"):
 		return "err:exhausted"
 	// the same two classes when the messages are worded differently (no sentinel exists for either): the lock key was gone
-	// at the ownership check (the GET returned redis.Nil), and — an error that wraps nothing and is none of the above — the
-	// repository gave up after its attempts
+	// at the ownership check (the GET returned redis.Nil), and the repository gave up after its attempts.  The second is NOT
+	// a catch-all: an error that wraps nothing counts as "exhausted" only when its text is still about the lock (it mentions
+	// "lock", "attempt" or "acquire", in any case); every other error — a new kind included — is reported as err:other:<text>
+	// and so shows up as a disagreement with the model
 	case errors.Is(err, redis.Nil):
 		return "err:locklost"
-	case errors.Unwrap(err) == nil && !strings.Contains(err.Error(), "unmashal"):
+	case errors.Unwrap(err) == nil && mentionsLocking(err.Error()):
 		return "err:exhausted"
 	}
 	return "err:other:" + strings.ReplaceAll(err.Error(), " ", "_")
+}
+
+func mentionsLocking(msg string) bool {
+	m := strings.ToLower(msg)
+	return strings.Contains(m, "lock") || strings.Contains(m, "attempt") || strings.Contains(m, "acquire")
 }
 
 func SortedServers(xs []server.Server) string {
